@@ -4,7 +4,7 @@ usage: matrix_to_md.py <matrix.tsv> [...]  (later files override earlier ones pe
 import sys, re, json, os
 
 def norm(name):
-    m = re.search(r'(R2)?(C\d\d|F\d)-?([AB])?$', name.replace('.patch.diff', ''))
+    m = None
     parts = [p for p in re.split(r'[-/]', name) if p]
     # last two meaningful components: <dir>, <A|B>
     v = parts[-1] if parts[-1] in ('A', 'B') else 'A'
@@ -27,7 +27,7 @@ for f in sys.argv[1:]:
                 d[q[0]] = (int(q[1]), q[2] if len(q) > 2 else '', q[3] if len(q) > 3 else '')
 
 def prop_of(n):
-    m = re.match(r'(R2)?(C\d\d|F\d)', n)
+    m = re.match(r'(R\d)?(C\d\d|F\d)', n)
     k = m.group(2)
     return {'F1': 'C10', 'F2': 'C10', 'F3': 'C11'}.get(k, k)
 
